@@ -5,7 +5,8 @@ from vsa import front
 from vsa.facts import Facts, unwrap, show, walk, lit_value
 from vsa.front import AnalysisBroken
 from vsa.lock import CounterFlow
-from vsa.alg import Fold, guard_strs
+from vsa.alg import Fold, guard_strs, S, F as Fn
+from vsa.cases import decide, resolve_ite
 from vsa.cfg import CFG
 
 LEVEL = "other"
@@ -405,13 +406,39 @@ def run(rep, tier):
                 okl = False
     rep.check(okl, "R10.6", "cursor-advances", "++metajit_ on every loop iteration", "the job cursor is not advanced unconditionally in the assignment loop (a job that is not started would be examined forever, or skipped)", sy.loc(), sample=True)
     rq = fn("RequestNextJob")
-    take = [n for n in rq.walk() if n.get("k") == "assign" and nows(show(n["lhs"])) == "jobToProc" and "nextjit_" in show(n["rhs"])]
-    adv = [n for n in rq.walk() if (n.get("k") == "opcall" and n.get("op") == "++" and "nextjit_" in show(n["args"][0])) or (n.get("k") == "unop" and n["op"] == "++" and "nextjit_" in show(n["sub"]))]
-    gq = CFG(rq)
-    ok = len(take) == 1 and len(adv) == 1 and gq.where[take[0]["id"]][0] == gq.where[adv[0]["id"]][0] and gq.dominates(take[0]["id"], adv[0]["id"])
-    rets = [n for n in rq.walk() if n.get("k") == "return"]
-    ok = ok and len(rets) == 1 and nows(show(rets[0]["value"])) == "jobToProc"
-    rep.check(ok, "R10.6", "hand-out-once", "jobToProc = *nextjit_; ++nextjit_ once; returned", "RequestNextJob does not hand out *nextjit_ and advance it exactly once", rq.loc(), sample=True)
+    # decided on folded values for the 8 scenarios (cursor at the end before? more jobs announced? the fresh chunk empty?)
+    frq = Fold(rq, inline=False).run()
+    crq = getattr(frq, "conds", {})
+    NJ, ENDJ, BEG = S("nextjit_"), Fn("end")(S("jobsToProc_")), Fn("begin")(S("jobsToProc_"))
+
+    def orq(lf):
+        if isinstance(lf, tuple) and len(lf) == 3 and lf[0] in ("==", "!=") and ENDJ in lf[1:]:
+            o_ = lf[1] if lf[2] == ENDJ else lf[2]
+            if o_ == NJ:
+                return ("END0", lf[0] == "==")
+            if o_ == BEG:
+                return ("EMPTY_NEW", lf[0] == "==")
+        if str(lf) == "moreJobsAvailable_":
+            return ("MORE", True)
+        return None
+    rets = [e for e in frq.events if e["kind"] == "return"]
+    fin = frq.exit_env().get(("field", "nextjit_"))
+    ok, why_q = len(rets) == 1 and fin is not None, "expected a single return and an update of nextjit_"
+    if ok:
+        for e0, mo, en in _it.product((True, False), repeat=3):
+            A = {"END0": e0, "MORE": mo, "EMPTY_NEW": en}
+            pick = lambda cs: decide(crq[cs], None, A, orq, crq) if cs in crq else None
+            rv = resolve_ite(rets[0]["value"], pick) if hasattr(rets[0]["value"], "args") else rets[0]["value"]
+            nv = resolve_ite(fin, pick) if hasattr(fin, "args") else fin
+            synced = e0 and mo
+            P = BEG if synced else NJ
+            end_after = en if synced else e0
+            want_r, want_n = (S("nullptr"), P) if end_after else (Fn("deref")(P), Fn("iterinc")(P))
+            if str(rv) != str(want_r) or str(nv) != str(want_n):
+                ok, why_q = False, "with the cursor %s the end, %s jobs announced and the fresh chunk %s it returns %s and leaves the cursor at %s (required %s and %s)" % (
+                    "at" if e0 else "before", "more" if mo else "no more", "empty" if en else "non-empty", rv, nv, want_r, want_n)
+                break
+    rep.check(ok, "R10.6", "hand-out-once", "jobToProc = *nextjit_; ++nextjit_ once; returned", "RequestNextJob does not hand out *nextjit_ and advance it exactly once: " + why_q, rq.loc(), sample=True)
     rep.assumptions += ["behaviour under real crashes / kill points and boost's file-lock semantics are not decided; exception paths are not modelled"]
 
 
